@@ -39,6 +39,10 @@ def strategy(tier):
         c = draw(lossgen.loss_case(target_param="subset-ordered", target_state=True, catalogue=1))
         # order of the calls on the one loss object: costIV before or after cost/residual
         c["iv_first"] = draw(st.booleans())
+        # cost() / residual() with theta left at its default, after someone else (the user running a simulation, another loss
+        # object on the same model) has written other values into the shared model's parameters
+        c["default_theta_after_foreign_write"] = draw(st.integers(0, 3)) == 0
+        c["foreign_factors"] = [draw(st.sampled_from([0.5, 0.8, 1.3, 2.0])) for _ in c["model"]["params"]]
         return c
     return case()
 
@@ -102,6 +106,23 @@ def oracle(case, rec):
         raise Inconclusive("prediction not positive")
     ref = lossgen.ref_cost(case, y, yhat)
     _well_conditioned(case, y, yhat, traj, ref)
+    if case.get("default_theta_after_foreign_write"):
+        stored = lossgen.construction_theta(case)
+        th_s = lossgen.full_theta(case, stored)
+        traj_s = lossgen.reference_traj(m, th_s, su["x0"], su["t0"], times)
+        yhat_s = traj_s[:, cols]
+        if (yhat_s > 1e-9).all() or case["loss"] in ("Square", "Normal"):
+            ref_s = lossgen.ref_cost(case, y, yhat_s)
+            _well_conditioned(case, y, yhat_s, traj_s, ref_s)
+            # only the parameters this loss object is responsible for (its target parameters) are overwritten: the others
+            # live in the shared model by design and would legitimately change the cost
+            tset = set(case["target_param"] or m["params"])
+            model.parameters = [v * (f if q in tset else 1.0) for q, v, f in zip(m["params"], su["theta"], case["foreign_factors"])]
+            got_s = call(key + "/cost-default-theta", case, obj.cost)
+            rec.label("cost():default-theta-after-foreign-parameter-write")
+            if not np.isfinite(got_s) or abs(float(got_s) - ref_s) > 1e-5 * (1 + abs(ref_s)):
+                raise PropertyViolation(key + "/cost-default-theta", "cost() with theta at its default = %.12g, reference loss at the "
+                                        "parameters the loss object holds (%s) = %.12g" % (got_s, stored, ref_s), case)
     rec.label("order:" + ("costIV-first" if case.get("iv_first") else "cost-first"))
     if case.get("iv_first"):
         _check_costIV(case, rec, obj, key, m, su, names, y, th, free, times, cols)
